@@ -35,7 +35,7 @@ pub static PROP: Prop = Prop {
         "the order in which chunks are requested is not prescribed; only 'a non-fitting answer does not advance/alter' and 'all offsets answered => equal' are judged",
     ],
     profiles: Profiles::Strict,
-    cases: |t| t.pick(3_000, 60_000),
+    cases: |t| t.pick(20_000, 200_000),
     budget_s: |t| t.pick(60, 600),
     run,
     min_nontrivial: 40,
